@@ -106,18 +106,22 @@ theorem advance_reachable {fuel : Nat} {d : DState} {r : Nat} {x : State × Stri
             · exact ih (d := { d with s := s1 }) hr1 hs
         next u hsel =>
           split at hs
-          · simp at hs
-          next s1 h1 =>
-            have hr1 := Reachable.step _ h h1
-            split at hs
-            · split at hs
-              · simp at hs
-              next s2 h2 =>
-                have hr2 := endAttempt_reachable hr1 h2
-                split at hs
-                · simp at hs; subst hs; exact hr2
-                · exact ih (d := { d with s := s2 }) hr2 hs
-            · simp at hs; subst hs; exact hr1
+          · split at hs
+            · simp at hs
+            next s1 h1 => simp at hs; subst hs; exact Reachable.step _ h h1
+          · split at hs
+            · simp at hs
+            next s1 h1 =>
+              have hr1 := Reachable.step _ h h1
+              split at hs
+              · split at hs
+                · simp at hs
+                next s2 h2 =>
+                  have hr2 := endAttempt_reachable hr1 h2
+                  split at hs
+                  · simp at hs; subst hs; exact hr2
+                  · exact ih (d := { d with s := s2 }) hr2 hs
+              · simp at hs; subst hs; exact hr1
 
 theorem continueOrRet_reachable {d d' : DState} {s1 : State} {r : Nat} {res ev : String} (h1 : Reachable s1)
     (hs : continueOrRet d s1 r res = some (d', ev)) : Reachable d'.s := by
@@ -173,22 +177,30 @@ theorem advanceDyn_reachable {fuel : Nat} {d : DState} {r : Nat} {x : DState × 
                   · exact ih (d := withIter d s3 r d.s.cfgs.length (keysOf d q.cfg)) hr3 hs
             next u hsel =>
               split at hs
-              · simp at hs
-              next s2 h2 =>
-                have hr2 := Reachable.step _ hr1 h2
-                split at hs
-                · split at hs
+              · split at hs
+                · simp at hs
+                next s2 h2 =>
+                  have hr2 := Reachable.step _ hr1 h2
+                  split at hs
                   · simp at hs
-                  next s3 h3 =>
-                    have hr3 := endAttempt_reachable hr2 h3
-                    split at hs
+                  next s3 h3 => simp at hs; subst hs; exact unload_reachable hr2 h3
+              · split at hs
+                · simp at hs
+                next s2 h2 =>
+                  have hr2 := Reachable.step _ hr1 h2
+                  split at hs
+                  · split at hs
                     · simp at hs
-                    next s4 h4 =>
-                      have hr4 := unload_reachable hr3 h4
+                    next s3 h3 =>
+                      have hr3 := endAttempt_reachable hr2 h3
                       split at hs
-                      · simp at hs; subst hs; exact hr4
-                      · exact ih (d := withIter d s4 r d.s.cfgs.length (keysOf d q.cfg)) hr4 hs
-                · simp at hs; subst hs; exact hr2
+                      · simp at hs
+                      next s4 h4 =>
+                        have hr4 := unload_reachable hr3 h4
+                        split at hs
+                        · simp at hs; subst hs; exact hr4
+                        · exact ih (d := withIter d s4 r d.s.cfgs.length (keysOf d q.cfg)) hr4 hs
+                  · simp at hs; subst hs; exact hr2
 
 theorem advanceFb_reachable {d : DState} {r : Nat} {x : DState × String} (h : Reachable d.s)
     (hs : advanceFb d r = some x) : Reachable x.1.s := by
@@ -351,6 +363,23 @@ theorem sstep_reachable {d d' : DState} {st : SStep} {ev : String} (h : Reachabl
             simp [ha] at hs
             obtain ⟨hd, _⟩ := hs; subst hd
             exact advance_reachable (d := { d with s := s1 }) hr1 ha
+  | newReqBad get k =>
+    simp only [sstep] at hs
+    split at hs
+    · simp at hs
+    next c =>
+      split at hs
+      · simp at hs
+      next s1 h1 =>
+        have hr1 := Reachable.step _ h h1
+        split at hs
+        · exact advanceAny_reachable (d := { d with s := s1, badDial := (d.s.reqs.length, k) :: d.badDial }) hr1 hs
+        · cases ha : advance fuel0 { d with s := s1, badDial := (d.s.reqs.length, k) :: d.badDial } d.s.reqs.length with
+          | none => simp [ha] at hs
+          | some x =>
+            simp [ha] at hs
+            obtain ⟨hd, _⟩ := hs; subst hd
+            exact advance_reachable (d := { d with s := s1, badDial := (d.s.reqs.length, k) :: d.badDial }) hr1 ha
   | newReqWs =>
     simp only [sstep] at hs
     split at hs
@@ -600,6 +629,18 @@ theorem leaves_only_by_finish {s s' : State} {a : Action} {r : Nat} {q q' : Req}
       all_goals simp at hs
     next => simp at hs
   | activeCheck c i pass => exact (same (stepActive_core hs).2.2.2.1).elim
+  | dialInfoFails r2 =>
+    simp only [step, stepDialInfoFails] at hs
+    split at hs
+    next q2 hq2 =>
+      split at hs
+      next hpc =>
+        simp at hs; subst hs
+        rcases set_case hq hq' with ⟨_, rfl⟩ | ⟨rfl, rfl⟩
+        · simp [hin] at hout
+        · rw [hq] at hq2; simp at hq2; subst hq2; simp [hpc, Pc.inFlightOn] at hin
+      all_goals simp at hs
+    next => simp at hs
   | fallback r2 =>
     simp only [step, stepFallback] at hs
     split at hs
